@@ -14,6 +14,7 @@ Definition step_model (has_gfx : bool) (s : mem) (o : op) : result (mem * val) :
   | MapSet x y v => '(m', g') <- map_set_cell m g has_gfx x y v ;; Ok (mk g' m' f mu sf, VNone)
   | MapGetRect x y w h => r <- map_get_rect_tiles m g has_gfx x y w h ;; Ok (s, VRows r)
   | MapSetRect x y rows => '(m', g') <- map_set_rect_tiles m g has_gfx rows x y ;; Ok (mk g' m' f mu sf, VNone)
+  | MapGetRectPx x y w h => r <- map_get_rect_pixels m g has_gfx x y w h ;; Ok (s, VRows r)
   | FlagGet id fl => v <- gff_get_flags f id fl ;; Ok (s, VInt v)
   | FlagSet id fl => f' <- gff_set_flags f id fl ;; Ok (mk g m f' mu sf, VNone)
   | FlagClear id fl => f' <- gff_clear_flags f id fl ;; Ok (mk g m f' mu sf, VNone)
